@@ -1,0 +1,41 @@
+package eip712
+
+import (
+	errorsmod "cosmossdk.io/errors"
+	errortypes "github.com/cosmos/cosmos-sdk/types/errors"
+
+	"github.com/tidwall/gjson"
+)
+
+// rejectDuplicateKeys refuses a JSON value in which an object repeats a member name, at any depth.
+//
+// gjson (which the typed data is built with) reads the first occurrence of a repeated member, the Amino JSON
+// codec (which decodes and validates the sign doc) reads the last one: for such a document the typed data would
+// describe another transaction than the one the codec reads, so a signature over it would bind the wrong one.
+// Sign docs generated from a transaction are canonical JSON and never repeat a member.
+func rejectDuplicateKeys(value gjson.Result) error {
+	var err error
+
+	switch {
+	case value.IsObject():
+		seen := make(map[string]struct{})
+		value.ForEach(func(key, member gjson.Result) bool {
+			name := key.String()
+			if _, found := seen[name]; found {
+				err = errorsmod.Wrapf(errortypes.ErrInvalidRequest, "malformed payload received, member %q is repeated", name)
+				return false
+			}
+			seen[name] = struct{}{}
+
+			err = rejectDuplicateKeys(member)
+			return err == nil
+		})
+	case value.IsArray():
+		value.ForEach(func(_, element gjson.Result) bool {
+			err = rejectDuplicateKeys(element)
+			return err == nil
+		})
+	}
+
+	return err
+}
